@@ -264,6 +264,8 @@ structure St where
   cnt : List Nat := []
   cfrom : List Nat := []
   compl : List Nat := []
+  /-- `complainers[j]`: who complained against `j` in step 1(b) (the own complaints included) -/
+  complainers : List (List Nat) := []
   qual : List Nat := []
   alpha : Int := 0
   halpha : Int := 0
@@ -391,73 +393,86 @@ def jlVerify (G : Grp) (st : St) (I : Inbox) : Except Err (St × Inbox × List O
   let compl := sortUniq st.n cm3
   let cnt := (List.range st.n).map (fun j => if compl.contains j then 1 else 0)
   let ops : List Op := compl.map (fun (j : Nat) => Op.bc tagShare (j : Int)) ++ [Op.bc tagShare (st.n : Int)]
-  pure ({ st with s := s, sp := sp, cnt := cnt, compl := [] }, I1, ops, .run)
+  let cps := (List.range st.n).map (fun j => if compl.contains j then [st.i] else [])
+  pure ({ st with s := s, sp := sp, cnt := cnt, complainers := cps, compl := [] }, I1, ops, .run)
 
 /-! ### Share, step 1(c) -/
 
-/-- one sender's complaint list: `(counters, complaints_from, complaints)` -/
+/-- `complainers[who].push_back(j)` -/
+def addComplainer (cps : List (List Nat)) (who j : Nat) : List (List Nat) :=
+  cps.set who (cps.getD who [] ++ [j])
+
+/-- one sender's complaint list: `(counters, complaints_from, complaints, complainers)` -/
 def readComplaints (st : St) (j : Nat) : Nat → Nat → List Nat → Inbox → List Nat → List Nat → List Nat →
-    Inbox × List Nat × List Nat × List Nat
-  | 0, _, _, I, cnt, cf, cm => (I, cnt, cf, cm)
-  | f + 1, it, dup, I, cnt, cf, cm =>
+    List (List Nat) → Inbox × List Nat × List Nat × List Nat × List (List Nat)
+  | 0, _, _, I, cnt, cf, cm, cps => (I, cnt, cf, cm, cps)
+  | f + 1, it, dup, I, cnt, cf, cm, cps =>
     match I.popB tagShare j with
-    | (none, I1) => (I1, cnt, cf, cm ++ [j])
+    | (none, I1) => (I1, cnt, cf, cm ++ [j], cps)
     | (some v, I1) =>
       let who := getUi v
-      let (cnt', cf', cm', dup') :=
+      let (cnt', cf', cm', dup', cps') :=
         if who < st.n ∧ ¬ dup.contains who then
-          (cnt.set who (getN cnt who + 1), (if who = st.i then cf ++ [j] else cf), cm, dup ++ [who])
-        else if who < st.n then (cnt, cf, cm ++ [j], dup)
-        else (cnt, cf, cm, dup)
-      if who < st.n ∧ it + 1 ≤ st.n then readComplaints st j f (it + 1) dup' I1 cnt' cf' cm'
-      else (I1, cnt', cf', cm')
+          (cnt.set who (getN cnt who + 1), (if who = st.i then cf ++ [j] else cf), cm, dup ++ [who],
+           addComplainer cps who j)
+        else if who < st.n then (cnt, cf, cm ++ [j], dup, cps)
+        else (cnt, cf, cm, dup, cps)
+      if who < st.n ∧ it + 1 ≤ st.n then readComplaints st j f (it + 1) dup' I1 cnt' cf' cm' cps'
+      else (I1, cnt', cf', cm', cps')
 
-def collectGo (st : St) : List Nat → Inbox → List Nat → List Nat → List Nat →
-    Inbox × List Nat × List Nat × List Nat
-  | [], I, cnt, cf, cm => (I, cnt, cf, cm)
-  | j :: rest, I, cnt, cf, cm =>
-    if j = st.i then collectGo st rest I cnt cf cm
+def collectGo (st : St) : List Nat → Inbox → List Nat → List Nat → List Nat → List (List Nat) →
+    Inbox × List Nat × List Nat × List Nat × List (List Nat)
+  | [], I, cnt, cf, cm, cps => (I, cnt, cf, cm, cps)
+  | j :: rest, I, cnt, cf, cm, cps =>
+    if j = st.i then collectGo st rest I cnt cf cm cps
     else
-      let (I1, cnt1, cf1, cm1) := readComplaints st j (st.n + 1) 0 [] I cnt cf cm
-      collectGo st rest I1 cnt1 cf1 cm1
+      let (I1, cnt1, cf1, cm1, cps1) := readComplaints st j (st.n + 1) 0 [] I cnt cf cm cps
+      collectGo st rest I1 cnt1 cf1 cm1 cps1
 
 /-- collect the complaints, reveal the shares of the parties that complained against oneself -/
 def jlCollect (st : St) (I : Inbox) : St × Inbox × List Op × Status :=
-  let (I1, cnt, cf, cm) := collectGo st (List.range st.n) I st.cnt [] []
+  let (I1, cnt, cf, cm, cps) := collectGo st (List.range st.n) I st.cnt [] [] st.complainers
   let cfs := sortUniq st.n cf
   let ans : List Op := if getN cnt st.i > 0 then
       cfs.flatMap (fun (it : Nat) =>
         [Op.bc tagShare (it : Int), Op.bc tagShare (getI st.srow it), Op.bc tagShare (getI st.hrow it)])
     else []
-  ({ st with cnt := cnt, cfrom := cfs, compl := cm }, I1, ans ++ [Op.bc tagShare (st.n : Int)], .run)
+  ({ st with cnt := cnt, cfrom := cfs, compl := cm, complainers := cps }, I1,
+   ans ++ [Op.bc tagShare (st.n : Int)], .run)
 
 /-- the answers of dealer `j`: every revealed pair is checked against `j`'s commitments; the party
-    the pair was meant for adopts it -/
-def readAnswers (G : Grp) (st : St) (j : Nat) : Nat → Inbox → List Int → List Int → List Nat →
-    Except Err (Inbox × List Int × List Int × List Nat)
-  | 0, I, s, sp, cm => .ok (I, s, sp, cm)
-  | f + 1, I, s, sp, cm =>
+    the pair was meant for adopts it; `ans` collects whose complaints were answered (an entry counts
+    as soon as its first value is read) -/
+def readAnswers (G : Grp) (st : St) (j : Nat) : Nat → Inbox → List Int → List Int → List Nat → List Nat →
+    Except Err (Inbox × List Int × List Int × List Nat × List Nat)
+  | 0, I, s, sp, cm, ans => .ok (I, s, sp, cm, ans)
+  | f + 1, I, s, sp, cm, ans =>
     match I.popB tagShare j with
-    | (none, I1) => .ok (I1, s, sp, cm ++ [j])
+    | (none, I1) => .ok (I1, s, sp, cm ++ [j], ans)
     | (some w, I1) =>
       let who := getUi w
-      if who ≥ st.n then .ok (I1, s, sp, cm)
+      if who ≥ st.n then .ok (I1, s, sp, cm, ans)
       else
+        let ans1 := ans ++ [who]
         match I1.popB tagShare j with
-        | (none, I2) => .ok (I2, s, sp, cm ++ [j])
+        | (none, I2) => .ok (I2, s, sp, cm ++ [j], ans1)
         | (some foo0, I2) =>
           let (c1, foo) := if absGe foo0 G.q then (true, (0 : Int)) else (false, foo0)
           let cmA := if c1 then cm ++ [j] else cm
           match I2.popB tagShare j with
-          | (none, I3) => .ok (I3, s, sp, cmA ++ [j])
+          | (none, I3) => .ok (I3, s, sp, cmA ++ [j], ans1)
           | (some bar0, I3) => do
             let (c2, bar) := if absGe bar0 G.q then (true, (0 : Int)) else (false, bar0)
             let cmB := if c2 then cmA ++ [j] else cmA
             let lhs ← pedF G foo bar
             let rhs ← commitProd G.p (who + 1) (getRow st.C j)
-            if lhs != rhs then readAnswers G st j f I3 s sp (cmB ++ [j])
-            else if who = st.i then readAnswers G st j f I3 (s.set j foo) (sp.set j bar) cmB
-            else readAnswers G st j f I3 s sp cmB
+            if lhs != rhs then readAnswers G st j f I3 s sp (cmB ++ [j]) ans1
+            else if who = st.i then readAnswers G st j f I3 (s.set j foo) (sp.set j bar) cmB ans1
+            else readAnswers G st j f I3 s sp cmB ans1
+
+/-- one complaint against `j` for every complainer it left without an answer -/
+def unanswered (st : St) (j : Nat) (ans : List Nat) : List Nat :=
+  ((st.complainers.getD j []).filter (fun c => !ans.contains c)).map (fun _ => j)
 
 def resolveGo (G : Grp) (st : St) : List Nat → Inbox → List Int → List Int → List Nat →
     Except Err (Inbox × List Int × List Int × List Nat)
@@ -466,8 +481,8 @@ def resolveGo (G : Grp) (st : St) : List Nat → Inbox → List Int → List Int
     if getN st.cnt j > st.t then resolveGo G st rest I s sp (cm ++ [j])
     else if j = st.i then resolveGo G st rest I s sp cm
     else do
-      let (I1, s1, sp1, cm1) ← readAnswers G st j (st.n + 1) I s sp cm
-      resolveGo G st rest I1 s1 sp1 cm1
+      let (I1, s1, sp1, cm1, ans) ← readAnswers G st j (st.n + 1) I s sp cm []
+      resolveGo G st rest I1 s1 sp1 (cm1 ++ unanswered st j ans)
 
 /-- the opening of `Flip`, step 2: `a_i`, `â_i` (a party with the faulty switch adds one) -/
 def openOps (st : St) : Int × Int × List Op :=
